@@ -6,6 +6,7 @@ import re
 import time
 
 import panics
+import ranges
 from common import FIRST_PARTY, Rule, VERIF, finish
 from mirutil import Body, op_local
 from taint import Taint
@@ -146,7 +147,8 @@ def run(facts, tier):
     reviewed_crate = collections.Counter()
     for e in tab:
         reviewed_crate[(crate_of(e["file"]), e["kind"], e["what"])] += e["count"]
-    S = panics.sites(facts, FIRST_PARTY, is_repl)
+    proved, n_asserts = ranges.discharged(facts, FIRST_PARTY, is_repl)
+    S = panics.sites(facts, FIRST_PARTY, is_repl, discharged=proved)
     cnt = collections.Counter((a, b, w) for a, b, w, fn, sp in S)
     cnt_crate = collections.Counter((crate_of(a), b, w) for a, b, w, fn, sp in S)
     where = collections.defaultdict(list)
@@ -176,6 +178,7 @@ def run(facts, tier):
         if key in reviewed:
             cls[reviewed[key]["class"]] += n
     nb.notes.append("sites per discharge class: " + json.dumps(cls))
+    nb.notes.append(f"interval analysis (ranges.py): {len(proved)} of {n_asserts} assertion sites (overflow, division, bounds) computed unfailing and not inventory matter, e.g. " + "; ".join(f"{k[0].split('::')[-1]} {k[2]}: {w[:70]}" for k, w in sorted(proved.items())[:3]))
     rules.append(nb.finish())
 
     # ---- P5.c scope pairing
